@@ -2,6 +2,8 @@ import GwModel.Drv.Codec
 import GwModel.Scrub
 import GwModel.Select
 import GwModel.Route
+import GwModel.InjectFile
+import GwModel.Http
 import GwModel.Gen.Facts
 /-! gwdrv: one JSON object per line in, one per line out (DESIGN §2.2). Core + Lean.Data.Json only. -/
 open Lean Codec
@@ -12,10 +14,62 @@ partial def decPStep (j : Json) : Scrub.PStep :=
 def encPaths (ps : List (List String)) : Json :=
   .arr (ps.map fun p => Json.arr (p.map Json.str).toArray).toArray
 
+partial def decJ (j : Json) : Inj.J :=
+  match j with
+  | .null => .null
+  | .arr xs => .arr (xs.toList.map decJ)
+  | .obj _ => .obj ((kvs j).map fun (k, v) => (k, decJ v))
+  | other => .atom other.compress
+
+partial def encJ : Inj.J → Json
+  | .null => .null
+  | .file n => Json.mkObj [("$file", .num n)]
+  | .atom s => (Json.parse s).toOption.getD (.str s)
+  | .arr xs => .arr (xs.map encJ).toArray
+  | .obj kv => Json.mkObj (kv.map fun (k, v) => (k, encJ v))
+
+partial def decJV (j : Json) : Http.JV :=
+  match j with
+  | .null => .null
+  | .bool b => .bool b
+  | .num n => .num (n.exponent == 0)
+  | .str s => .str s
+  | .arr xs => .arr (xs.toList.map decJV)
+  | .obj _ => .obj ((kvs j).map fun (k, v) => (k, decJV v))
+
+def encOp (o : Http.OpReq) : Json :=
+  Json.mkObj [("query", .str o.query), ("operationName", .str o.opName), ("hash", .str o.hash)]
+
+def encEntry : Http.Entry → Json
+  | .data => .str "data"
+  | .errors => .str "errors"
+
 def handle (j : Json) : Json :=
   match getStr j "op" with
   | "mono" => Json.mkObj [("data", encVal (Mono.mono (decCase j)))]
   | "merge" => runMerge j
+  | "inject" =>
+    let ops := (getArr j "ops").map decJ
+    let files := (getArr j "files").map fun f => (getNat f "n", strList f "paths")
+    match InjF.injectAll ops (getBool j "batch") files with
+    | .ok ops' => Json.mkObj [("ok", .arr (ops'.map encJ).toArray)]
+    | .error _ => Json.mkObj [("err", .str "rejected")]
+  | "http-parse" =>
+    let body := if getBool j "valid" then (getObj? j "body").map decJV else none
+    let body := if getBool j "valid" && body.isNone then some Http.JV.null else body
+    match Http.parseOperations body with
+    | .ok (ops, batch) => Json.mkObj [("ops", .arr (ops.map encOp).toArray), ("batch", .bool batch)]
+    | .error _ => Json.mkObj [("err", .str "rejected")]
+  | "http-respond" =>
+    -- {"ops":[{query,operationName,hash,plannable,execOK}], "batch":b}
+    let items := getArr j "ops"
+    let ops : List Http.OpReq := items.map fun o => ⟨getStr o "query", getStr o "operationName", getStr o "hash"⟩
+    let flag (name : String) (o : Http.OpReq) : Bool :=
+      (items.find? fun x => getStr x "query" == o.query && getStr x "operationName" == o.opName && getStr x "hash" == o.hash).map (getBool · name) |>.getD false
+    let r := Http.handleOps (flag "plannable") (flag "execOK") ops (getBool j "batch")
+    Json.mkObj [("status", .num r.status), ("executed", .num r.executed),
+      ("shape", match r.body with | .single _ => .str "entry" | .list _ => .str "list"),
+      ("entries", .arr (r.body.entries.map encEntry).toArray)]
   | "route" =>
     -- {"sources":[{"url":..,"types":{T:[fields]}}],"internal":{...},"gwTypes":[..],"keys":[["T","f"],...]}
     let decSrc (x : Json) : Route.Src :=
